@@ -476,10 +476,11 @@ Inductive view :=
 | VResource (kind g p1 p2 p3 : nat) (c : view)
 | VCleanup (id : Z) (c : view)
 | VAlloc (slot : nat) (c : view)
-| VItem (p slot : nat).
+| VItem (p slot : nat)
+| VDynL (p : nat).                           (* a reactive closure where the rendering owner is the lexical one *)
 
 Definition K_LEAF := 1. Definition K_DYN := 2. Definition K_ASYNC := 3.
-Definition K_PRE := 4. Definition K_POST := 5. Definition K_ITEM := 6.
+Definition K_PRE := 4. Definition K_POST := 5. Definition K_ITEM := 6. Definition K_DYNL := 7.
 Definition FINAL_GATE := 999.
 Definition CANARY_SLOT := 999.
 
@@ -520,6 +521,7 @@ Fixpoint compile (r : rid) (v : view) {struct v} : list instr :=
   | VCleanup id c => IAct (AOnCleanup id) :: compile r c
   | VAlloc slot c => IAct (AAlloc slot (10000 * Z.of_nat r + Z.of_nat slot)) :: compile r c
   | VItem p slot => [IAct (AProbe p K_ITEM (Some slot))]
+  | VDynL p => [IAct (AProbe p K_DYNL None)]
   end.
 
 (** the request's top-level task: handler future, then the response body.  Everything that
